@@ -48,6 +48,7 @@ pub fn alphabet(name: &str) -> Vec<f64> {
         "large25" => vec![1e25, 3e25, -2e25, 7e24, 1e30],
         "q07" => vec![-1., 0., 0.5, 2., 7.],
         // finite values near the overflow threshold (sums of two overflow, the values do not)
+        "qhuge" => vec![-1.7e308, 0., 1.7e308],
         "q07huge" => vec![-1.7e308, -1.2e308, 0.5, 1e308, 1.5e308],
         "const1" => vec![2.5],
         "weights" => vec![0., 1e-6, 0.5, 1., 3., 1e6],
